@@ -10,6 +10,7 @@ KINDS = {
     'p2pkh': ('sig_pubkey', 'legacy', True, False),
     'p2pkh_u': ('sig_pubkey', 'legacy', False, False),
     'p2pk': ('signature', 'legacy', True, False),
+    'p2pk_u': ('signature', 'legacy', False, False),
     'p2sh_ms': ('p2sh_multisig', 'legacy', True, True),
     'p2wpkh': ('sig_pubkey', 'segwit', True, False),
     'p2wsh_ms': ('p2sh_multisig', 'segwit', True, True),
@@ -43,7 +44,7 @@ def input_ref(inp):
             spk = raddr.spk_witness(0, codec.sha256(redeem))
         else:
             spk = raddr.spk_p2sh(codec.hash160(raddr.spk_witness(0, codec.sha256(redeem))))
-    elif kind == 'p2pk':
+    elif kind in ('p2pk', 'p2pk_u'):
         spk = raddr.spk_p2pk(pubs[0])
         sc = spk
     else:
@@ -168,3 +169,30 @@ def make_spec(seed, kinds, mn=(2, 3), version=1, locktime=0, seqs=None, values=N
     if outputs is None:
         outputs = [{'kind': 'p2pkh', 'payload': hashlib.sha256(b'o').hexdigest(), 'value': 1000}]
     return {'network': network, 'version': version, 'locktime': locktime, 'inputs': ins, 'outputs': outputs}
+
+
+def ref_signature_length(spec, input_index=0, key_index=0):
+    """Length (DER + hash-type byte) of the RFC6979 / low-S SIGHASH_ALL signature the reference computes for one key
+    of one input of the spec."""
+    from vf.ref import tx as rtx
+    r0 = ref_unsigned(spec)
+    ref = input_ref(spec['inputs'][input_index])
+    if ref['sigversion'] == 'base':
+        z = rtx.sighash_legacy(r0, input_index, ref['script_code'], 1)
+    else:
+        z = rtx.sighash_bip143(r0, input_index, ref['script_code'], ref['amount'], 1)
+    d = spec['inputs'][input_index]['keys'][key_index]
+    k = secp.rfc6979_k(d, z)
+    r, s_ = secp.ecdsa_sign_raw(d, int.from_bytes(z, 'big'), k)
+    if s_ > secp.N // 2:
+        s_ = secp.N - s_
+    return len(secp.der_encode(r, s_)) + 1
+
+
+def tune_locktime_for_signature_length(make, lengths, start=500000100, tries=4000):
+    """First locktime >= start for which make(locktime) gives a spec whose reference signature (input 0, key 0) has
+    one of the wanted lengths; None if there is none within `tries`."""
+    for lt in range(start, start + tries):
+        if ref_signature_length(make(lt)) in lengths:
+            return lt
+    return None
